@@ -125,7 +125,7 @@ impl<C: Ctxt> Frame<C> {
     pub fn in_future<F>(self, future: F) -> FrameFuture<C, F> {
         FrameFuture {
             frame: self,
-            future,
+            future: mem::ManuallyDrop::new(future),
         }
     }
 
@@ -215,7 +215,19 @@ The result of calling [`Frame::in_future`].
 */
 pub struct FrameFuture<C: Ctxt, F> {
     frame: Frame<C>,
-    future: F,
+    // Dropped manually, so the frame can be entered while it happens
+    future: mem::ManuallyDrop<F>,
+}
+
+impl<C: Ctxt, F> Drop for FrameFuture<C, F> {
+    fn drop(&mut self) {
+        // Drop the future inside its frame, so anything that completes
+        // while it's being cancelled still sees the frame's properties
+        let __guard = self.frame.enter();
+
+        // SAFETY: The future is dropped in place, and isn't accessed again
+        unsafe { mem::ManuallyDrop::drop(&mut self.future) }
+    }
 }
 
 impl<C: Ctxt, F: Future> Future for FrameFuture<C, F> {
@@ -229,7 +241,7 @@ impl<C: Ctxt, F: Future> Future for FrameFuture<C, F> {
         let __guard = unpinned.frame.enter();
 
         // SAFETY: `FrameFuture::future` is pinned
-        unsafe { Pin::new_unchecked(&mut unpinned.future) }.poll(cx)
+        unsafe { Pin::new_unchecked(&mut *unpinned.future) }.poll(cx)
     }
 }
 
